@@ -430,6 +430,12 @@ func idFromSNI(sni string) string {
 // ---- the run ----
 
 func run(s *kernel.Sim, prop, cfg string) {
+	if prop == "C07" {
+		runC07(s, cfg)
+
+		return
+	}
+
 	t := s.T
 	u := buildUniverse(t)
 	sn := &seen{upDev: map[string]string{}}
